@@ -142,9 +142,12 @@ def run_check(args):
         for r in results:
             if r.get("skipped") or r["error"]:
                 continue
+            prev_ = led["functions"].get("%s:%s" % (r["rel"], r["qual"]))
             led["functions"]["%s:%s" % (r["rel"], r["qual"])] = {
                 "fingerprint": r["fingerprint"],
-                "proved": sorted(ob["name"] for ob in r["obligations"] if ob["status"] == "proved")}
+                # two verified contract variants of one function ([v0], [v1]) share this key: keep both name sets
+                "proved": sorted(set(prev_["proved"] if prev_ else ()) |
+                                 set(ob["name"] for ob in r["obligations"] if ob["status"] == "proved"))}
         with open(_ledger_path(prop), "w") as f:
             json.dump(led, f, indent=1, sort_keys=True)
         ledger_names = set()
